@@ -4,6 +4,7 @@ import (
 	"context"
 	"fmt"
 	"strings"
+	"sync/atomic"
 	"time"
 
 	"github.com/samber/ro"
@@ -83,6 +84,7 @@ func (e *Env) Pipeline() (ro.Observable[int], []*Src) {
 
 // SubHandle tracks one Subscribe call made by a harness actor.
 type SubHandle struct {
+	pub      uint32 // published (atomically) once S/Returned are set: readers on other actors acquire it
 	S        ro.Subscription
 	Returned bool
 	RetStep  int
@@ -110,10 +112,24 @@ func (e *Env) Subscribe(o ro.Observable[int], obs ro.Observer[int], ctx context.
 		h.S = s
 		h.Returned = true
 		h.RetStep = e.Step()
+		atomic.StoreUint32(&h.pub, 1)
 		e.K.Log("Subscribe returned")
 	})
 	return h
 }
+
+// Sub returns the subscription once Subscribe has returned (nil before). Reading it through this method
+// gives the reader the happens-before edge a real program would create when handing the subscription
+// to another goroutine.
+func (h *SubHandle) Sub() ro.Subscription {
+	if atomic.LoadUint32(&h.pub) == 0 {
+		return nil
+	}
+	return h.S
+}
+
+// Ret reports whether the Subscribe call has returned.
+func (h *SubHandle) Ret() bool { return atomic.LoadUint32(&h.pub) == 1 }
 
 // FeedAll starts the producers of every hot source.
 func FeedAll(srcs []*Src) {
